@@ -2,11 +2,13 @@
 from checks import actors_common as ac
 
 THEOREMS = ['Poupool.C07.auto_backwash_only_when_due', 'Poupool.C07.drain_backwash_only_in_wash', 'Poupool.C07.wash_needs_high_tank', 'Poupool.C07.wash_cycle_rows', 'Poupool.C07.rinse_exit_publishes']
+TIMING = ['Poupool.Timing.filtration_setting_end_on_time']
 MODULE = "Poupool.Properties.C07"
 
 
 def run(chk):
     ac.run_actor_property(chk, MODULE, THEOREMS, monitor_pids=["C07"], extra=globals().get("extra"))
+    ac.timing_theorems(chk, TIMING)
 
 
 def search(chk):
